@@ -45,6 +45,13 @@ type plan struct {
 	KillP      float64  `json:"kill_p"`
 	PollMax    int      `json:"poll_records_max"`
 	Yield      int      `json:"yield_level"`
+	// SlowEndP: share of EndTxn requests held SlowEndMs before the broker sees them (the offsets
+	// are then pending at the coordinator while the member sits in End); with a RebalanceTimeout
+	// shorter than that, a rebalance evicts the member and hands its partitions to another one
+	// while its transaction is still open.
+	SlowEndP           float64 `json:"slow_endtxn_p,omitempty"`
+	SlowEndMs          int     `json:"slow_endtxn_ms,omitempty"`
+	RebalanceTimeoutMs int     `json:"rebalance_timeout_ms,omitempty"`
 }
 
 const (
@@ -83,6 +90,9 @@ func run(p plan, watchdog time.Duration) *result {
 		case 0, 24, 25, 26, 28:
 			fmu.Lock()
 			defer fmu.Unlock()
+			if r.Key == 26 && p.SlowEndP > 0 && frng.Float64() < p.SlowEndP {
+				return faultnet.Action{Kind: faultnet.DelayBefore, D: time.Duration(p.SlowEndMs) * time.Millisecond}
+			}
 			if x := frng.Float64(); x < p.KillP {
 				if frng.IntN(2) == 0 {
 					return faultnet.Action{Kind: faultnet.KillBefore}
@@ -142,6 +152,10 @@ func run(p plan, watchdog time.Duration) *result {
 	default:
 		bal = kgo.CooperativeStickyBalancer()
 	}
+	rebTimeout := 60 * time.Second
+	if p.RebalanceTimeoutMs > 0 {
+		rebTimeout = time.Duration(p.RebalanceTimeoutMs) * time.Millisecond
+	}
 	start := func() {
 		memMu.Lock()
 		seq++
@@ -166,7 +180,7 @@ func run(p plan, watchdog time.Duration) *result {
 					kgo.WithContext(ctx0), kgo.ClientID(fmt.Sprintf("eos-%d", id)), kgo.TransactionalID(fmt.Sprintf("eos-%d-%d", p.Seed, id)),
 					kgo.ConsumerGroup(group), kgo.ConsumeTopics(inTopic), kgo.Balancers(bal), kgo.FetchIsolationLevel(kgo.ReadCommitted()), kgo.RequireStableFetchOffsets(),
 					kgo.ConsumeResetOffset(kgo.NewOffset().AtStart()), kgo.RecordPartitioner(kgo.ManualPartitioner()),
-					kgo.TransactionTimeout(30*time.Second), kgo.SessionTimeout(45*time.Second), kgo.HeartbeatInterval(200*time.Millisecond), kgo.RebalanceTimeout(60*time.Second),
+					kgo.TransactionTimeout(30*time.Second), kgo.SessionTimeout(45*time.Second), kgo.HeartbeatInterval(200*time.Millisecond), kgo.RebalanceTimeout(rebTimeout),
 					kgo.FetchMaxWait(50*time.Millisecond), kgo.MetadataMinAge(10*time.Millisecond),
 					kgo.RetryBackoffFn(func(n int) time.Duration { return time.Duration(n+1) * 2 * time.Millisecond }),
 					kgo.RequestTimeoutOverhead(2*time.Second), kgo.ProduceRequestTimeout(2*time.Second))
@@ -402,6 +416,10 @@ func gen(rng *rand.Rand, seed uint64, vt bool) plan {
 	}
 	if vt {
 		p.Yield = 0
+	}
+	if rng.IntN(3) == 0 && p.Protocol != "848" { // the classic rebalance timeout evicts a member that does not rejoin in time
+		p.SlowEndP, p.SlowEndMs, p.RebalanceTimeoutMs = 0.25, 2500, 1000
+		p.Churn = append(p.Churn, "join", "join")
 	}
 	return p
 }
